@@ -71,6 +71,8 @@ class Family:
             return self.run(e[1])[::-1]
         if op == "slice":
             return self.run(e[1])[e[2]:e[3]]
+        if op == "slicerev":
+            return self.run(e[1])[e[2]:e[3]:-1]
         if op == "getitem":
             return self.run(e[1])[e[2]]
         if op == "interchange":
@@ -125,6 +127,8 @@ def tok_expr(e):
         return "dagger " + tok_expr(e[1])
     if op == "slice":
         return "slice %s %s %s" % (tok_expr(e[1]), tok_opt(e[2]), tok_opt(e[3]))
+    if op == "slicerev":
+        return "slicerev %s %s %s" % (tok_expr(e[1]), tok_opt(e[2]), tok_opt(e[3]))
     if op == "getitem":
         return "getitem %s %d" % (tok_expr(e[1]), e[2])
     if op == "interchange":
